@@ -172,7 +172,7 @@ const c10StallAfter = 10 * time.Second
 func runC10(c C10Case) ev.Outcome {
 	// "complete" can only be judged by waiting: a stall is confirmed by re-execution before it
 	// is reported (a slow machine is not a violation)
-	return withHangConfirmation(c, func() (ev.Outcome, bool) { return runC10Once(c) })
+	return withHangConfirmation("C10", c, func() (ev.Outcome, bool) { return runC10Once(c) })
 }
 
 func runC10Once(c C10Case) (ev.Outcome, bool) {
@@ -277,7 +277,7 @@ func runC10Once(c C10Case) (ev.Outcome, bool) {
 	go func() { wg.Wait(); close(done) }()
 	stalled := false
 	var stackDump string
-	last, lastChange := r.progress.Load(), time.Now()
+	last, lastChange, idleTicks := r.progress.Load(), time.Now(), 0
 	tick := time.NewTicker(200 * time.Millisecond)
 	defer tick.Stop()
 wait:
@@ -286,9 +286,10 @@ wait:
 		case <-done:
 			break wait
 		case <-tick.C:
+			idleTicks++
 			if p := r.progress.Load(); p != last {
-				last, lastChange = p, time.Now()
-			} else if time.Since(lastChange) > c10StallAfter {
+				last, lastChange, idleTicks = p, time.Now(), 0
+			} else if time.Since(lastChange) > c10StallAfter && idleTicks >= int(c10StallAfter/(200*time.Millisecond))/2 {
 				stalled = true
 				stackDump = stacks()
 				r.failMu.Lock()
